@@ -90,13 +90,26 @@ func NewMarchingCanvas(cubesPerUnit float64) *MarchingCanvas {
 	}
 }
 
-func (d MarchingCanvas) index(x, y, z int) int {
+func (d *MarchingCanvas) index(x, y, z int) int {
 	return (z * marchingSectionSizeSquared) + (y * marchingSectionSize) + x
+}
+
+// float1Chunk_atomic retrieves (and allocates if need be) the float1 data for
+// the chunk. The lookup happens while holding the lock, as other workers
+// might be growing the chunk list.
+func (d *MarchingCanvas) float1Chunk_atomic(section *marchingSection, vec modeling.VectorInt) float1MarchingSection {
+	d.chunkMutex.Lock()
+	defer d.chunkMutex.Unlock()
+	return d.float1Data[d.chunkIndex(section, vec)]
 }
 
 func (d *MarchingCanvas) chunkIndex_atomic(section *marchingSection, vec modeling.VectorInt) int {
 	d.chunkMutex.Lock()
 	defer d.chunkMutex.Unlock()
+	return d.chunkIndex(section, vec)
+}
+
+func (d *MarchingCanvas) chunkIndex(section *marchingSection, vec modeling.VectorInt) int {
 	chunkIndex, ok := section.positions[vec]
 	if !ok {
 		switch section.dataType {
@@ -183,8 +196,7 @@ func (d *MarchingCanvas) addFloat1Range(section *marchingSection, chunkPos, min,
 		panic(fmt.Errorf("cant add float1 to section with type of: %d", section.dataType))
 	}
 
-	index := d.chunkIndex_atomic(section, chunkPos)
-	data := d.float1Data[index]
+	data := d.float1Chunk_atomic(section, chunkPos)
 
 	for z := min.Z; z < max.Z; z++ {
 		for y := min.Y; y < max.Y; y++ {
